@@ -3,7 +3,7 @@ import PhysisModel.Base.BytesLemmas
 /-!
 The relation `Reads p w v` — parser `p` consumes exactly the bytes `w` (whatever follows them) and
 returns `v` — with its composition lemmas, for the big-endian parser layer of `Base/ParserBE.lean`.
-Proof-side only (imports `BytesLemmas`, hence `bv_decide`): not linked into the driver.
+Proof-side only (imports `BytesLemmas`, hence `bv_decide (timeout := 300)`): not linked into the driver.
 -/
 namespace Physis.ParserBE
 open Physis
